@@ -101,6 +101,32 @@ func c18(p *Prog, r *Report) {
 				}
 				// returned key's N and E are the integers read
 				nDst, eDst := items[4].Call.Common().Args[1], items[5].Call.Common().Args[1]
+				// the destinations can hold whatever the writers emit: N any big
+				// integer, E every value of rsa.PublicKey.E's own type
+				dstElem := func(v ssa.Value) types.Type {
+					if mi, ok := v.(*ssa.MakeInterface); ok {
+						v = mi.X
+					}
+					if pt, ok := v.Type().Underlying().(*types.Pointer); ok {
+						return pt.Elem()
+					}
+					return v.Type()
+				}
+				origDst := func(it ReadItem, d ssa.Value) ssa.Value {
+					if it.Orig != nil && len(it.Orig.Common().Args) > 1 {
+						return it.Orig.Common().Args[1] // the read inside the helper
+					}
+					return d
+				}
+				if t := dstElem(origDst(items[4], nDst)); typeShort(t) != "math/big.Int" {
+					probs = append(probs, "the modulus is read into a "+typeShort(t)+", which cannot hold every modulus the writers emit (required *big.Int)")
+				}
+				if t := dstElem(origDst(items[5], eDst)); typeShort(t) != "math/big.Int" {
+					bt, isBasic := t.Underlying().(*types.Basic)
+					if !isBasic || bt.Info()&types.IsInteger == 0 || bt.Info()&types.IsUnsigned != 0 || p.Sizes.Sizeof(t) < p.Sizes.Sizeof(types.Typ[types.Int]) {
+						probs = append(probs, "the public exponent is read into a "+typeShort(t)+", narrower than rsa.PublicKey.E (int): exponents the writers emit are refused or truncated by the reader")
+					}
+				}
 				okN, okE := false, false
 				for _, b := range fn.Blocks {
 					for _, in := range b.Instrs {
